@@ -4,7 +4,7 @@ CONSTANTS
   MaxC = 1
   Kinds = {"ixfr2"}
   MaxMsgs = 3
-  FaultKinds = {"none", "drop", "dup", "swap", "trunc", "hdr", "wrongq"}
+  FaultKinds = {"none", "drop", "dup", "swap", "trunc", "hdr", "wrongq", "csoa"}
   LaterQ = {FALSE}
 SPECIFICATION Spec
 INVARIANT StepwiseIsRun
